@@ -83,6 +83,8 @@ type c10Case struct {
 	Order     []int  `json:"order"`     // id order for multi-subscription requests
 	NSubs     int    `json:"nsubs"`
 	Stream    bool   `json:"stream"` // waiter 0 is a StreamingPull-style streamer instead of a Pull
+	// DLTarget: 0 = the dead-letter topic has a subscription, 1 = it has none, 2 = it is deleted
+	DLTarget int `json:"dl_target"`
 }
 
 var c10Scenarios = []string{"publish", "modack-zero-spanning", "ack-ordered-predecessor", "nack-deadletters-predecessor", "deadletter-forward-into-topic", "seek-back", "sweep-forward-into-topic"}
@@ -240,8 +242,14 @@ func runC10(s *sut.SUT, cs c10Case) (rule, detail string, nontrivial bool) {
 		}
 		_, err := s.Sub.CreateSubscription(ctx, sb)
 		must(err)
-		_, err = s.Sub.CreateSubscription(ctx, &pubsubpb.Subscription{Name: c10Sub(1), Topic: c10D, RetryPolicy: long})
-		must(err)
+		noTarget := cs.DLTarget != 0 && (cs.Scenario == "nack-deadletters-predecessor" || cs.Scenario == "ack-ordered-predecessor")
+		if !noTarget {
+			_, err = s.Sub.CreateSubscription(ctx, &pubsubpb.Subscription{Name: c10Sub(1), Topic: c10D, RetryPolicy: long})
+			must(err)
+		} else if cs.DLTarget == 2 {
+			_, err = s.Pub.DeleteTopic(ctx, &pubsubpb.DeleteTopicRequest{Topic: c10D})
+			must(err)
+		}
 		publish(c10T, `{"m":"first","key":1}`, `{"m":"second","key":1}`)
 		rm := pull(c10Sub(0), 10)
 		if len(rm) != 1 {
@@ -466,6 +474,7 @@ func genC10(rt *rapid.T) c10Case {
 	}
 	cs.Order = rapid.Permutation([]int{0, 1, 2}[:cs.NSubs]).Draw(rt, "order")
 	cs.Stream = rapid.IntRange(0, 5).Draw(rt, "stream") == 0
+	cs.DLTarget = rapid.IntRange(0, 2).Draw(rt, "dltarget")
 	return cs
 }
 
